@@ -101,6 +101,21 @@ theorem cached_costs_nothing (r : CachingReader) (s e : Nat) (h : (r.lookup s e)
 theorem reader_total (r : CachingReader) (s e : Nat) : (r.readBytes s e).1 ≠ .panic :=
   readBytes_ne_panic r s e
 
+theorem strtabAt_total (s : ElfStream) (idx : Nat) : (s.strtabAt idx).1 ≠ .panic := by
+  unfold ElfStream.strtabAt
+  split
+  · simp
+  · split
+    · simp
+    · rename_i hp; exact absurd hp (dataRange_ne_panic _ _)
+    · unfold ElfStream.withReader rbind
+      simp only
+      rename_i rg _
+      have := readBytes_ne_panic s.reader rg.1 rg.2
+      generalize s.reader.readBytes rg.1 rg.2 = q at this
+      obtain ⟨q1, q2⟩ := q
+      cases q1 <;> simp_all
+
 /-- `self.shdrs[0]` in `section_headers_with_strtab` is reached only with a non-empty table. -/
 theorem shdrs0_guarded (s : ElfStream) : (s.sectionHeadersWithStrtab).1 ≠ .panic := by
   unfold ElfStream.sectionHeadersWithStrtab
@@ -115,22 +130,7 @@ theorem shdrs0_guarded (s : ElfStream) : (s.sectionHeadersWithStrtab).1 ≠ .pan
         | cons a l => exact ⟨a, by simp⟩
       obtain ⟨s0, hs0⟩ := h0
       split
-      · rename_i hp
-        split at hp
-        · simp [hs0] at hp
-        · simp at hp
-      · simp
-      · split
-        · simp
-        · split
-          · simp
-          · rename_i hp; exact absurd hp (dataRange_ne_panic _ _)
-          · unfold ElfStream.withReader rbind
-            simp only
-            rename_i rg _
-            have := readBytes_ne_panic s.reader rg.1 rg.2
-            generalize s.reader.readBytes rg.1 rg.2 = q at this
-            obtain ⟨q1, q2⟩ := q
-            cases q1 <;> simp_all
+      · rw [hs0]; exact strtabAt_total s _
+      · exact strtabAt_total s _
 
 end Elf.C08
